@@ -62,6 +62,7 @@ def ScriptedCriteria():
 # ------------------------------------------------------------------ scenario strategy
 @st.composite
 def leaf_expr(draw, kind, n, molecular_labels=False, max_attempts=True, default_labels=False):
+    # default_labels: also draw the documented `default_label` tunable of label-bearing moves
     e = {"t": kind}
     if kind in ("disp", "exch"):
         if molecular_labels and n >= 2 and draw(st.booleans()):
@@ -72,13 +73,13 @@ def leaf_expr(draw, kind, n, molecular_labels=False, max_attempts=True, default_
         else:
             labs = draw(S.labels_st(n, ensure_nonneg=draw(st.integers(0, 7)) != 0))
         e["labels"] = labs
+    if kind in ("disp", "exch") and default_labels:
+        e["default_label"] = draw(st.sampled_from(["unset", "unset", None, -1, 0, 3]))
     if kind == "disp":
         e["op"] = draw(S.disp_op_desc())
     elif kind == "exch":
         e["op"] = draw(st.sampled_from([None, {"o": "Translation"}, {"o": "TranslationRotation"}]))
         e["bias"] = 0.5
-        if default_labels:
-            e["default_label"] = draw(st.sampled_from(["unset", "unset", None, -1, 0, 3]))
     elif kind == "cell":
         e["op"] = draw(S.def_op_desc())
         e["scale_atoms"] = draw(st.booleans())
@@ -155,7 +156,7 @@ def allowed_leaf_kinds(ens):
 
 @st.composite
 def scenario(draw, ensembles=ENSEMBLES, calc_styles=("caching",), constraints=True, extra_arrays=True, logger=False,
-             max_entries=3, exclude=(), default_labels=False, min_atoms=2, max_atoms=7):
+             max_entries=3, exclude=(), default_labels=False, min_atoms=2, max_atoms=7, alias=False):
     ens = draw(st.sampled_from(list(ensembles)))
     cons = ()
     if constraints:
@@ -182,7 +183,10 @@ def scenario(draw, ensembles=ENSEMBLES, calc_styles=("caching",), constraints=Tr
         scn["excluded_known"] += excl
         entries.append(e)
     scn["entries"] = entries
+    if alias and draw(st.integers(0, 2)) == 0:
+        scn["alias_of"] = draw(st.integers(0, len(entries) - 1))
     if ens == "GrandCanonical":
+        scn["n_exchange"] = draw(st.integers(0, 4))
         if draw(st.booleans()):
             scn["species"] = {"symbols": ["Cu" if calc_style == "emt" else "Ar"], "positions": [[0.0, 0.0, 0.0]]}
         else:
@@ -245,6 +249,11 @@ def build_simulation(scn, logfile=None):
             mv = S.build_move(e, cache if scn.get("share_cache") else {})
             cr = ScriptedCriteria()
             mc.add_move(mv, criteria=cr, name=f"e{i}")
+            crits.append(cr)
+        if "alias_of" in scn:
+            # the same move object listed under a second name
+            cr = ScriptedCriteria()
+            mc.add_move(mc.moves[f"e{scn['alias_of']}"].move, criteria=cr, name=f"e{len(scn['entries'])}")
             crits.append(cr)
     return mc, atoms, {"criteria": crits, "calc_params": params}
 
@@ -356,6 +365,11 @@ class MCMachine(RuleBasedStateMachine):
 
     def entry_names(self):
         return list(self.mc.moves)
+
+    def entry_expr(self, name):
+        i = int(name[1:])
+        ents = self.scn["entries"]
+        return ents[i] if i < len(ents) else ents[self.scn["alias_of"]]
 
     def elementary(self, name):
         return S.elementary_moves(self.mc.moves[name].move)
